@@ -114,8 +114,13 @@ def check_one(lams, lats, conv_d, qlams, qlats_, conv_q, tol, max_sites, pre, ct
         for lq, pq in zip(qlams, qlats_):
             d = [pdist(lq, pq, ls, ps) for ls, ps in zip(lams, lats)]
             dm = min(d)
-            if abs(dm - tol) < 1e-9:
+            # on coordinates that are multiples of 1/4 degree the distance arithmetic is exact (differences, squares, and the
+            # square root of a perfect square), so "equal to the tolerance" is well defined there: it does not exceed it
+            dyadic = all(float(v * 4.0).is_integer() for v in list(lams) + list(lats) + list(qlams) + list(qlats_) + [tol])
+            if abs(dm - tol) < 1e-9 and not (dyadic and dm == tol):
                 ambiguous = True
+            if dyadic and dm == tol:
+                ctx.label("nearest-exactly-at-tolerance")
             if dm > tol:
                 fail = True
             want.append([i for i in range(n) if d[i] <= dm + 1e-9])
@@ -340,7 +345,7 @@ def check_lattice(case, ctx):
     for q in QUERIES:
         for cd in ("360", "180"):
             for cq in ("360", "180"):
-                for tol in (1.0, 400.0):
+                for tol in (0.25, 1.0, 1.25, 400.0):
                     ctx.nontrivial = False
                     check_one(lams, lats, cd, [q[0]], [q[1]], cq, tol, 4, False, ctx)
                     nt += bool(ctx.nontrivial)
@@ -348,15 +353,15 @@ def check_lattice(case, ctx):
     ctx.evals -= 1
     ctx.nontrivial = nt > 0
     ctx.extra_nt = max(0, nt - 1)
-    ctx.show(dict(station_lons=lams, queries=QUERIES, conventions="both x both", tolerances=[1.0, 400.0]))
+    ctx.show(dict(station_lons=lams, queries=QUERIES, conventions="both x both", tolerances=[0.25, 1.0, 1.25, 400.0]))
 
 
 def facets():
-    e = Enumeration("lattice", lattice_items, check_lattice, bounds="all layouts of <= 3 stations on a 12-point longitude lattice x 6 queries x conventions x 2 tolerances")
+    e = Enumeration("lattice", lattice_items, check_lattice, bounds="all layouts of <= 3 stations on a 12-point longitude lattice x 6 queries x conventions x 4 tolerances (two of them equal to a station-query distance)")
     e.shards = {"quick": 6, "thorough": 16}
     return [Facet("select", sel_case(), check_sel, quick=600, thorough=40000, qshards=6), e]
 
 
 def extra_evidence(merged, tier):
     ok = merged.get("lattice", {}).get("exhaustive")
-    return dict(exhaustive_subspaces=["all layouts of 1-3 stations on the 12-point longitude lattice %s x 6 queries x both conventions for dataset and query x tolerances {1,400}" % LATTICE] if ok else [])
+    return dict(exhaustive_subspaces=["all layouts of 1-3 stations on the 12-point longitude lattice %s x 6 queries x both conventions for dataset and query x tolerances {0.25,1,1.25,400}" % LATTICE] if ok else [])
